@@ -148,7 +148,7 @@ Proof.
   assert (He : TraceOk (emit (EvControl c) s)) by (apply emit_ok; [exact I|exact H]).
   assert (Hcl : forall c0 s0, TraceOk s0 -> TraceOk (emit (EvClosed c0) (set_opn (remove_nat c0 (opn s0)) s0))).
   { intros c0 s0 H0. tok. constructor; [exact I|exact H0]. }
-  destruct c as [w|w|hs| |c|c| |].
+  destruct c as [w|w|hs| |c|c| | |v].
   - destruct (shut _ || connected _); [apply emit_ok; [exact I|exact He]|].
     apply start_connector_ok. tok.
   - destruct (has_waiter _ _); [|exact He]. apply emit_ok; [exact I|]. tok.
@@ -160,6 +160,8 @@ Proof.
     destruct (cur _) as [c'|]; [destruct (Nat.eqb c c'); [now apply lose_current_ok|now apply Hcl]|now apply Hcl].
   - apply emit_ok; [exact I|]. now apply do_close_ok.
   - apply emit_ok; [exact I|]. apply do_close_ok. tok.
+  - destruct (connected _ && negb (running _)); [|exact He].
+    destruct (cur _); [now apply lose_current_ok|exact He].
 Qed.
 
 Lemma fire_ok x s : TraceOk s -> TraceOk (fire x s).
